@@ -72,19 +72,26 @@ Live(e) == IsEv(e) /\ ~skip /\ ns.alive
 CostFor(s, peer) == IF Has(sess[s].nodecost, peer) THEN sess[s].nodecost[peer] ELSE sess[s].cost
 
 TSessStart == /\ Live("sess_start")
-              /\ sess' = Put(sess, E.sess, [phase |-> "fresh", peer |-> "", cost |-> E.cost, allowany |-> E.allowany, allow |-> SeqSet(E.allow), nodecost |-> E.nodecost])
+              /\ sess' = Put(sess, E.sess, [phase |-> "fresh", peer |-> "", cost |-> E.cost, allowany |-> E.allowany, allow |-> SeqSet(E.allow), nodecost |-> E.nodecost, owed |-> ""])
               /\ UNCHANGED <<ns, pend, prelay, lastOwn, duty, ads>>
               /\ Advance({})
 
+\* `owed`: the rejection RecvRoute demands for the message just received on an established session.  The code must
+\* answer it with a `reject` event (which clears it) before it reads the next message of that session or hands the
+\* update to handleRoutingUpdate (ru_seen below).
 TRecv ==
   /\ Live("recv")
   /\ LET known == Has(sess, E.sess)
-         d == IF known /\ E.est # (sess[E.sess].phase = "est") THEN {"est_flag"} ELSE {}
          peer == IF known THEN sess[E.sess].peer ELSE ""
-         lists == known /\ sess[E.sess].phase = "est" /\ E.hasu /\ E.u.fwd = peer /\ E.u.node = peer /\ Has(E.u.conns, ns.id)
+         est == known /\ sess[E.sess].phase = "est"
+         d == (IF known /\ E.est # est THEN {"est_flag"} ELSE {})
+              \cup (IF known /\ sess[E.sess].owed # "" THEN {"read_on_after_" \o sess[E.sess].owed} ELSE {})
+         lists == est /\ E.hasu /\ E.u.fwd = peer /\ E.u.node = peer /\ Has(E.u.conns, ns.id)
+         owes == IF est /\ E.hasu /\ Has(ns.conn, peer) /\ Has(ns.rest, peer) THEN RecvRoute(ns, E.u, peer).reject ELSE ""
      IN /\ pend' = IF E.hasu THEN Put(pend, E.sess, E.u) ELSE Del(pend, E.sess)
         /\ ns' = IF lists /\ Has(ns.rest, peer) THEN [ns EXCEPT !.rest[peer] = TRUE] ELSE ns
-        /\ UNCHANGED <<sess, prelay, lastOwn, duty, ads>>
+        /\ sess' = IF known THEN [sess EXCEPT ![E.sess].owed = owes] ELSE sess
+        /\ UNCHANGED <<prelay, lastOwn, duty, ads>>
         /\ Advance(d)
 
 TReject ==
@@ -101,7 +108,8 @@ TReject ==
                         \cup (IF E.peer # u.fwd THEN {"peer"} ELSE {})
               ELSE (IF sess[s].phase # "est" THEN {"phase"} ELSE {})
                    \cup (IF RecvRoute(ns, u, sess[s].peer).reject # why THEN {"reject_reason"} ELSE {})
-     IN Keep /\ Advance(d)
+     IN /\ sess' = IF Has(sess, s) THEN [sess EXCEPT ![s].owed = ""] ELSE sess
+        /\ UNCHANGED <<ns, pend, prelay, lastOwn, duty, ads>> /\ Advance(d)
 
 TConnAdd ==
   /\ Live("conn_add")
@@ -156,7 +164,9 @@ TRuSelf ==
 
 TRuSeen ==
   /\ Live("ru_seen")
-  /\ LET d == IF E.hit # (E.id \in ns.seen) THEN {"seen_hit"} ELSE {}
+  /\ LET d == (IF E.hit # (E.id \in ns.seen) THEN {"seen_hit"} ELSE {})
+              \cup (IF \E s \in DOMAIN sess : sess[s].owed # "" /\ Has(pend, s) /\ pend[s].id = E.id
+                    THEN {"handled_update_that_must_be_rejected"} ELSE {})
      IN /\ ns' = [ns EXCEPT !.seen = @ \cup {E.id}]
         /\ UNCHANGED <<sess, pend, prelay, lastOwn, duty, ads>> /\ Advance(d)
 
